@@ -749,3 +749,29 @@ def str_parts(e: ast.AST) -> list[str] | None:
     if lit:
         out.append(repr(lit))
     return out
+
+
+def single_defs(fn: ast.FunctionDef) -> dict[str, ast.AST]:
+    """Locals of fn bound exactly once, by a plain top-level assignment `name = <expr>` (no loops/branches around it)."""
+    counts: dict[str, int] = {}
+    for n in ast.walk(fn):
+        if isinstance(n, ast.Name) and isinstance(n.ctx, (ast.Store, ast.Del)):
+            counts[n.id] = counts.get(n.id, 0) + 1
+    for a in fn.args.posonlyargs + fn.args.args + fn.args.kwonlyargs:
+        counts[a.arg] = counts.get(a.arg, 0) + 1
+    out = {}
+    for s in strip_docstring(fn.body):
+        if isinstance(s, ast.Assign) and len(s.targets) == 1 and isinstance(s.targets[0], ast.Name) and counts.get(s.targets[0].id) == 1:
+            out[s.targets[0].id] = s.value
+    return out
+
+
+def expand_locals(e: ast.AST, defs: dict[str, ast.AST], depth: int = 3) -> ast.AST:
+    """e with single-definition locals replaced by their defining expressions (up to `depth` levels)."""
+    cur = copy.deepcopy(e)
+    for _ in range(depth):
+        names = {n.id for n in ast.walk(cur) if isinstance(n, ast.Name) and isinstance(n.ctx, ast.Load)} & set(defs)
+        if not names:
+            break
+        cur = _Subst({k: defs[k] for k in names}).visit(cur)
+    return cur
